@@ -310,6 +310,42 @@ def _room_rule(r, f, ebp):
         elif t['k'] == 'call':
             for a in t['args']:
                 visit(ebp.operand(a), f.where(f.term_loc(b)))
+    # .. and tested the right way round: the early exit is taken when there is *no* room; with room the wake-ups are reached
+    wakes = [l for l, t in f.calls() if (t.get('callee') or '').endswith('Waker::wake') or (t.get('callee') or '').endswith('Waker::wake_by_ref')]
+    for b, blk in enumerate(f.blocks):
+        t = blk['term']
+        if blk['cleanup'] or t['k'] != 'switch':
+            continue
+        e = ebp.operand(t['discr'])
+        if not (e[0] == 'bin' and e[1] in ('Eq', 'Ne', 'Lt', 'Le', 'Gt', 'Ge') and has(e, is_len) and has(e, is_uns)):
+            continue
+        vals = {int(v): tg for v, tg in t['targets']}
+        t_true, t_false = vals.get(1, t['otherwise']), vals.get(0)
+        a_, b_ = strip(e[2]), strip(e[3])
+        zero = lambda x: x[0] == 'const' and x[1] == 0
+        no_room = None     # the edge target on which there is no room
+        if e[1] in ('Eq', 'Ne') and (zero(a_) or zero(b_)):
+            no_room = t_true if e[1] == 'Eq' else t_false
+            room = t_false if e[1] == 'Eq' else t_true
+        elif e[1] in ('Gt', 'Lt') and (zero(a_) or zero(b_)):
+            # room > 0 / 0 < room
+            pos = (e[1] == 'Gt' and zero(b_)) or (e[1] == 'Lt' and zero(a_))
+            if pos:
+                no_room, room = t_false, t_true
+        elif is_len(a_) and is_uns(b_) or is_len(b_) and is_uns(a_):
+            # len <= unsubmitted (no room) and its spellings
+            len_left = is_len(a_)
+            op = e[1] if len_left else {'Lt': 'Gt', 'Le': 'Ge', 'Gt': 'Lt', 'Ge': 'Le', 'Eq': 'Eq', 'Ne': 'Ne'}[e[1]]
+            if op in ('Le', 'Eq'):
+                no_room, room = t_true, t_false
+            elif op in ('Gt', 'Ne'):
+                no_room, room = t_false, t_true
+        if no_room is None or room is None or not wakes:
+            continue
+        bad1 = f.forward_paths_hit([Loc(no_room, 0)], wakes) is not None
+        bad2 = f.forward_paths_hit([Loc(room, 0)], wakes) is None
+        r.inst('room test: wake-ups only behind the edge with room: %s' % (not (bad1 or bad2)), f.where(f.term_loc(b)))
+        r.require(not (bad1 or bad2), 'wake_blocked_futures/room-polarity', 'the test of the room is the wrong way round: with free slots the function returns without waking anybody (blocked futures stay parked), without free slots it goes on', f.where(f.term_loc(b)))
     r.inst('room = submissions_len (-) unsubmitted (%d uses)' % found, f.where())
     r.require(found >= 1, 'wake_blocked_futures/room', 'no use of submissions_len (-) unsubmitted_submissions() found (unrecognised form)', f.where())
 
@@ -437,3 +473,5 @@ def check(ctx):
     ctx.run('C03.R6', 'register-then-recheck on the QueueFull path', r6_recheck)
     from . import c04
     ctx.run('C03.R7', 'QueueFull => wait_for_submission on every path before Pending (a waker kept in the operation state is never woken for queue space) (=C04.R7)', c04.r7_full_waits)
+    from . import c11
+    ctx.run('C03.R8', 'the blocking enter honours its timeout and wakes the kernel thread (=C11.R6): a parked poll would otherwise sleep through a wake-up', c11.r6_enter_contract)
